@@ -8,7 +8,7 @@ use crate::refmodel::{self, RunFail};
 use crate::report::{self, Report, Violation};
 use serde_json::json;
 
-const BASES: [&str; 5] = ["u32", "String", "Vec<u32>", "User", "T"];
+const BASES: [&str; 7] = ["u32", "String", "Vec<u32>", "User", "T", "DateTime(mapped)", "Vec<u8>(mapped to bytes)"];
 const WRAPPERS: [&str; 6] = ["T", "Option<T>", "Option<Option<T>>", "Box<Option<T>>", "Option<Box<T>>", "Arc<Option<Option<T>>>"];
 const DEFAULTS: [&str; 7] = ["none", "bare", "merged-last", "merged-first", "path", "separate-after-other-serde-attribute", "separate-before-other-serde-attribute"];
 const POSITIONS: [&str; 4] = ["struct-field", "variant-field", "variant-payload", "alias"];
@@ -19,6 +19,8 @@ fn base_ty(b: &str) -> Ty {
         "String" => Ty::Prim("String"),
         "Vec<u32>" => Ty::Vec(Box::new(Ty::Prim("u32"))),
         "User" => Ty::user("User"),
+        "DateTime(mapped)" => Ty::user("DateTime"),
+        "Vec<u8>(mapped to bytes)" => Ty::Vec(Box::new(Ty::Prim("u8"))),
         _ => Ty::Param("T".into()),
     }
 }
@@ -122,7 +124,18 @@ fn wrap_opt(t: &TT, n: usize) -> TT {
 
 pub fn check_case(c: &Case, choices: &[u32], acc: &mut Acc) {
     let file = program(c);
-    let cfg = if c.prefixed { Cfg::prefixed() } else { Cfg::plain() };
+    let mut cfg = if c.prefixed { Cfg::prefixed() } else { Cfg::plain() };
+    // types that a backend prints through its custom (de)serialisation helpers
+    match (c.base, c.lang) {
+        ("DateTime(mapped)", Lang::TypeScript) => cfg.type_mappings.push(("DateTime".into(), "Date".into())),
+        ("DateTime(mapped)", Lang::Python) => cfg.type_mappings.push(("DateTime".into(), "datetime".into())),
+        ("DateTime(mapped)", Lang::Go) => cfg.type_mappings.push(("DateTime".into(), "string".into())),
+        ("DateTime(mapped)", _) => cfg.type_mappings.push(("DateTime".into(), "String".into())),
+        ("Vec<u8>(mapped to bytes)", Lang::TypeScript) => cfg.type_mappings.push(("Vec<u8>".into(), "Uint8Array".into())),
+        ("Vec<u8>(mapped to bytes)", Lang::Python) => cfg.type_mappings.push(("Vec<u8>".into(), "bytes".into())),
+        ("Vec<u8>(mapped to bytes)", Lang::Go) => cfg.type_mappings.push(("Vec<u8>".into(), "[]byte".into())),
+        _ => {}
+    }
     let ty = wrap(c.wrapper, base_ty(c.base));
     let bare_default = matches!(c.default, "bare" | "merged-last" | "merged-first" | "separate-after-other-serde-attribute" | "separate-before-other-serde-attribute");
     let expect_optional = refmodel::optional(&ty, if bare_default { DefaultKind::Bare } else { DefaultKind::None });
@@ -130,7 +143,7 @@ pub fn check_case(c: &Case, choices: &[u32], acc: &mut Acc) {
     // number of optional wrappers the type text must carry in opt-carrying backends
     let type_levels = levels + if bare_default && levels == 0 { 1 } else { 0 };
     // Go with `no_pointer_slice`: the innermost Option around a Vec adds no pointer (documented: a nil slice is the absent value)
-    let go_slice_exempt = c.lang == Lang::Go && cfg.go_no_pointer_slice && c.base == "Vec<u32>" && levels >= 1;
+    let go_slice_exempt = c.lang == Lang::Go && cfg.go_no_pointer_slice && levels >= 1 && (c.base == "Vec<u32>" || c.base == "Vec<u8>(mapped to bytes)");
     let type_levels = if go_slice_exempt { type_levels - 1 } else { type_levels };
     acc.runs += 1;
     let res = refmodel::run_single(&file, c.lang, &cfg);
